@@ -628,6 +628,15 @@ Definition R_FRAME : reason := 9.        (* multi-line reply not terminated alth
 
 Definition chk (b : bool) (r : reason) : option reason := if b then None else Some r.
 
+(** The commit: every marked message of the snapshot is removed from the user's mailbox
+    (by id, in snapshot order). *)
+Fixpoint commit_from (sp : spec_state) (i : nat) (ms : list smsg) (st : store) : store :=
+  match ms with
+  | [] => st
+  | m :: ms' => commit_from sp (S i) ms' (if marked sp i then remove_msg st (sp_user sp) (sid m) else st)
+  end.
+Definition spec_commit (sp : spec_state) (st : store) : store := commit_from sp 0 (sp_snap sp) st.
+
 (** What the property demands of the reply [r] to command [c] in spec state [sp], the store
     being [st]; returns the verdict and the next spec state and store. *)
 Definition spec_step (fl : flavour) (st : store) (sp : spec_state) (c : cmd) (r : reply)
@@ -759,21 +768,11 @@ Definition spec_step (fl : flavour) (st : store) (sp : spec_state) (c : cmd) (r 
               (chk (r_ok r && is_single r) R_STATUS,
                {| sp_phase := Closed; sp_user := sp_user sp; sp_pending_user := sp_pending_user sp;
                   sp_snap := sp_snap sp; sp_marked := sp_marked sp |},
-               fold_left (fun s i => match nth_error (sp_snap sp) i with
-                                     | Some m => remove_msg s (sp_user sp) (sid m)
-                                     | None => s
-                                     end) (sp_marked sp) st)
+               spec_commit sp st)
           | _, _ => same (chk (is_err r) R_STATUS)
           end
       end
   end.
-
-(** The commit of a QUIT whose reply cannot be seen (write side broken). *)
-Definition spec_commit (sp : spec_state) (st : store) : store :=
-  fold_left (fun s i => match nth_error (sp_snap sp) i with
-                        | Some m => remove_msg s (sp_user sp) (sid m)
-                        | None => s
-                        end) (sp_marked sp) st.
 
 Definition spec_close (sp : spec_state) : spec_state :=
   {| sp_phase := Closed; sp_user := sp_user sp; sp_pending_user := sp_pending_user sp;
